@@ -384,6 +384,42 @@ def c09_3(ck, prog):
                     'pending_replies expire list is not created with bus_pending_reply_expired')
 
 
+def c09_3b(ck, prog):
+    r = ck.rule('C09.3b', 'the expiry walk examines every slot: the loop is left early only when the expire '
+                'callback failed (retry later), never because one slot is not due yet', 'TS',
+                breaks='older slots behind a young one never expire: no NoReply, and a stale slot still admits '
+                       'a reply', floor=1)
+    fn = prog.fn('do_expiration_with_monotonic_time', 'bus/expirelist.c')
+    cb = set()
+    for b, i, c in fn.calls():
+        if c.get('callee') is None:
+            fe = c.get('fn')
+            while fe is not None and fe.get('k') == 'un':
+                fe = fe['e']
+            if is_member(fe, 'expire_func', 'BusExpireList'):
+                cb.add(c['id'])
+    if not cb:
+        raise AnalysisBroken('do_expiration: indirect expire_func call not found')
+    head, body, bad, on_transfer = lib.loop_exits_only_when(
+        fn, r, 'expire-walk', lambda blk: (blk.get('term') or {}).get('kind') == 'WhileStmt',
+        lambda ctx, frm: any(ctx.result_known(c) is False for c in cb), 'expire callback failed')
+    Explorer(fn, on_transfer=on_transfer, calls='ALL', track='auto').run()
+    if bad:
+        for (frm, to), (line, path) in bad.items():
+            r.violation('do_expiration:early-exit@%s' % frm, fn.name, fn.file, line,
+                        'the expiry walk is abandoned at line %s although the expire callback did not fail: slots '
+                        'further down the list are not examined' % line, path)
+    else:
+        r.ok('do_expiration:walks-whole-list')
+    # the walk starts at the head and steps with next
+    from rules.C06 import walk_direction
+    f1, n1, b1 = walk_direction(fn)
+    if f1 == 1 and n1 and not b1:
+        r.ok('do_expiration:first->next')
+    else:
+        r.violation('do_expiration:first->next', fn.name, fn.file, fn.line, 'walk is not first->next')
+
+
 def c09_4(ck, prog):
     r = ck.rule('C09.4', 'no half-open slot: after the slot was added, every failure exit of expect_reply '
                 'removes it again', 'PAIR', breaks='OOM leaves a slot without an undo hook', floor=1)
@@ -430,4 +466,5 @@ def run(ck):
         c09_1(ck, prog)
         c09_2(ck, prog)
         c09_3(ck, prog)
+        c09_3b(ck, prog)
         c09_4(ck, prog)
